@@ -89,50 +89,18 @@ fn windows(scn: &Scn, g: &Option<Guest>) -> Vec<(u32, u32)> {
     }
 }
 
-/// k = the constant factor between what an instruction returns and what run() charges;
-/// inferred from the first instruction (the property does not fix it).
-fn infer_factor(scn: &Scn, g: &Option<Guest>) -> Result<u64, Failure> {
-    // what the first instruction returns
-    let mut sim = setup_machine(scn, g).map_err(|e| Failure::new("c13.harness", e))?;
-    let pc0 = sim.cpu.er[2];
-    sim.cpu.verif_set_pc(pc0);
-    let _ = sim.cpu.verif_init_registers();
-    let s0 = match guarded(|| sim.cpu.verif_step()) {
-        Ok(Ok(s)) => s as u64,
-        _ => return Ok(3), // first instruction fails: no charge is ever made, factor irrelevant
-    };
-    // what run() charges for it
-    struct First(Option<u64>);
-    impl Observer for First {
-        fn boundary(&mut self, _c: &mut Cpu, _g: &Guest, row: &Row, prev: Option<&Row>, _n: &[String]) -> Result<(), Failure> {
-            if let Some(p) = prev {
-                if self.0.is_none() && row.state != p.state {
-                    self.0 = Some(row.state - p.state);
-                }
-            }
-            Ok(())
-        }
-    }
-    let gg = g.clone().unwrap_or_else(empty_guest);
-    let cfg = SysCfg::plain(3);
-    let scn2 = scn.clone();
-    let (_, f) = run_sys(&gg, &cfg, &[], First(None), false, move |sim| {
-        if let Some(path) = &scn2.elf {
-            crate::elf::load(path.clone(), &mut sim.cpu, scn2.args.clone());
-        }
-    });
-    match f.0 {
-        Some(d) if s0 > 0 && d % s0 == 0 && d / s0 >= 1 => Ok(d / s0),
-        Some(d) => Err(Failure::new("c13.timebase", format!("the first instruction returned {} states but run() charged {}: not an integer multiple", s0, d))),
-        None => Ok(3),
-    }
-}
-
-fn reference_run(scn: &Scn, g: &Option<Guest>, k: u64) -> Result<RefTrace, Failure> {
+/// The reference loop: `try_interrupt; fetch+exec; account; update peripherals; stop at the exit address`, built from the
+/// H1 accessors. The amount charged per instruction is taken from a real run (the property does not say how the charge
+/// derives from the instruction's own state count - the shipped code multiplies by 3 in u8); the loop then decides the
+/// order of execution, termination, what the peripherals must have seen, and the messages.
+fn reference_run(scn: &Scn, g: &Option<Guest>, charges: &[u64]) -> Result<RefTrace, Failure> {
     let mut sim = setup_machine(scn, g).map_err(|e| Failure::new("c13.harness", e))?;
     let cpu = &mut sim.cpu;
     let mut rows = Vec::new();
     let mut sum: u64 = 0;
+    let mut too_big: Option<(usize, u64)> = None;
+    let mut map: std::collections::BTreeMap<u8, u64> = std::collections::BTreeMap::new();
+    let mut not_functional: Option<(usize, u8, u64, u64)> = None;
     let r = guarded(|| -> Outcome {
         let pc0 = cpu.er[2];
         cpu.verif_set_pc(pc0);
@@ -148,17 +116,29 @@ fn reference_run(scn: &Scn, g: &Option<Guest>, k: u64) -> Result<RefTrace, Failu
                 rows.push((pc, 0));
                 return Outcome::Err(format!("{:#}", e));
             }
-            let s = match cpu.verif_step() {
-                Ok(s) => s as u64 * k,
+            let own = match cpu.verif_step() {
+                Ok(s) => s,
                 Err(e) => {
                     rows.push((pc, 0));
                     return Outcome::Err(format!("{:#}", e));
                 }
             };
+            // what run() charged for this instruction (beyond the recorded run: the shipped rule)
+            let s = charges.get(rows.len()).copied().unwrap_or((own as u64 * 3) & 0xff);
+            match map.get(&own) {
+                Some(prev) if *prev != s && not_functional.is_none() => not_functional = Some((rows.len(), own, *prev, s)),
+                None => {
+                    map.insert(own, s);
+                }
+                _ => {}
+            }
+            if s > 255 && too_big.is_none() {
+                too_big = Some((rows.len(), s));
+            }
             sum += s;
             cpu.verif_set_state_sum(sum as usize);
             rows.push((pc, s as u32));
-            if let Err(e) = cpu.verif_update_modules(s as u8) {
+            if let Err(e) = cpu.verif_update_modules(s.min(255) as u8) {
                 return Outcome::Err(format!("{:#}", e));
             }
             if cpu.verif_pc() == cpu.exit_addr {
@@ -166,6 +146,12 @@ fn reference_run(scn: &Scn, g: &Option<Guest>, k: u64) -> Result<RefTrace, Failu
             }
         }
     });
+    if let Some((i, s)) = too_big {
+        return Err(Failure::new("c13.timebase", format!("instruction {} was charged {} states: more than the peripherals can be told in one update (255), so they cannot have seen the same amount", i, s)));
+    }
+    if let Some((i, own, a, b)) = not_functional {
+        return Err(Failure::new("c13.timebase", format!("instruction {}: an instruction costing {} states was charged {} earlier and {} now - the charge is not a function of the instruction's cost", i, own, a, b)));
+    }
     let outcome = match r {
         Ok(o) => o,
         Err(p) => Outcome::Panic(p),
@@ -182,6 +168,29 @@ fn reference_run(scn: &Scn, g: &Option<Guest>, k: u64) -> Result<RefTrace, Failu
         fin_state: sim.cpu.verif_state_sum() as u64,
         digest: digest_state(&sim.cpu, &w, &[]),
     })
+}
+
+/// Charges of a real run under the fast clock: one per executed instruction.
+fn observe_charges(scn: &Scn, g: &Option<Guest>) -> Result<Vec<u64>, Failure> {
+    let gg = g.clone().unwrap_or_else(empty_guest);
+    let cfg = SysCfg { wait_start: false, clock: ClockModel::Fast, clock_seed: 0, step_cap: scn.step_cap + 8, print_msgs: false };
+    let scn2 = scn.clone();
+    let (run, _) = run_sys(&gg, &cfg, &[], NullObserver, true, move |sim| {
+        if let Some(path) = &scn2.elf {
+            crate::elf::load(path.clone(), &mut sim.cpu, scn2.args.clone());
+        }
+    });
+    if let Outcome::Panic(p) = &run.outcome {
+        return Err(Failure::new("c13.error", format!("run() panicked at {}:{}: {}", p.file, p.line, p.msg)));
+    }
+    let mut out = Vec::with_capacity(run.rows.len());
+    for w in run.rows.windows(2) {
+        out.push(w[1].state - w[0].state);
+    }
+    if let Some(l) = run.rows.last() {
+        out.push(run.fin.state_sum.saturating_sub(l.state));
+    }
+    Ok(out)
 }
 
 struct LoopObserver {
@@ -463,7 +472,7 @@ impl Property for C13 {
                 let guest = GuestSpec { blocks, handlers: vec![], code_dram: false, stack_dram: false, data_dram: false, vec_top: 0, sub_delay: 1, init_ccr: None, stack_off: 0 };
                 let scn = Scn { guest: Some(guest), elf: None, args: String::new(), clocks: clocks.clone(), step_cap: 1_000_000, print_msgs: false };
                 if let Ok(g) = scn.guest.as_ref().unwrap().assemble() {
-                    if let Ok(t) = reference_run(&scn, &Some(g), 3) {
+                    if let Ok(t) = reference_run(&scn, &Some(g), &[]) {
                         let mut sum = 0u64;
                         let mut hit = false;
                         for (_, c) in &t.rows {
@@ -505,7 +514,8 @@ impl Property for C13 {
             3 => rng.below(2 * SYNC_INTERVAL),
             _ => rng.below(60_000),
         };
-        let code_dram = rng.chance(1, 3);
+        let slow_bus = rng.chance(1, 4);
+        let code_dram = rng.chance(1, 3) || (slow_bus && rng.chance(1, 2));
         let per_loop: u64 = if code_dram { 72 } else { 18 };
         let n = rng.range(3, if tier == Tier::Quick { 20 } else { 40 });
         let fail_at = if rng.chance(1, 5) { Some(rng.below(n)) } else { None };
@@ -518,7 +528,7 @@ impl Property for C13 {
                     _ => Block::Raw(vec![0x01, 0x80]),        // SLEEP: not implemented
                 });
             }
-            let b = match rng.below(14) {
+            let b = match rng.below(if slow_bus { 16 } else { 13 }) {
                 0..=3 => {
                     let share = budget / (n - i).max(1);
                     let loops = (share / per_loop).clamp(1, 65535);
@@ -542,6 +552,11 @@ impl Property for C13 {
                     _ => Block::Store { addr: 0xffff82, val: rng.u8() & 0x1f, short: true },
                 },
                 12 => Block::SetCcr(if masked { 0x80 | rng.u8() } else { rng.u8() & 0x7f }),
+                13 if slow_bus => match rng.below(3) {
+                    0 => Block::Store { addr: *rng.pick(&[0xfee020u32, 0xfee021, 0xfee022, 0xfee023, 0xfee026]), val: *rng.pick(&[0xffu8, 0x00, 0xcf, 0xfb, 0xe0, 0x30, 0xaa]), short: false },
+                    1 => Block::Store { addr: 0xfee023, val: 0xff, short: false }, // three wait states for areas 0-3 (DRAM is area 2)
+                    _ => Block::Heavy,
+                },
                 _ => Block::Delay(rng.range(1, 30) as u16),
             };
             blocks.push(b);
@@ -581,11 +596,11 @@ impl Property for C13 {
         if scn.clocks.is_empty() {
             return Verdict::Invalid("no clock model".into());
         }
-        let k = match infer_factor(scn, &g) {
-            Ok(k) => k,
+        let charges = match observe_charges(scn, &g) {
+            Ok(c) => c,
             Err(f) => return Verdict::Fail(f),
         };
-        let reft = match reference_run(scn, &g, k) {
+        let reft = match reference_run(scn, &g, &charges) {
             Ok(t) => std::rc::Rc::new(t),
             Err(f) => return Verdict::Fail(f),
         };
